@@ -641,6 +641,58 @@ int main(int argc, char** argv)
                 viol(std::string("unordered_set<shared_ptr<string>>") + (want ? ":inserted-key-not-found" : ":foreign-key-found"),
                      std::to_string(i));
         }
+        // the hash follows the POINTEE: after the pointee is modified through the pointer, and for a new
+        // object that the allocator places at the address of a destroyed one, the hash is the one of the
+        // current value (an address-keyed memo would be stale)
+        {
+            long checked = 0;
+            auto sp = std::make_shared<std::string>("first");
+            auto up = std::make_unique<int>(1);
+            for (int round = 0; round < 50; ++round)
+            {
+                (void)hash(sp);
+                (void)hash(up);
+                *sp = "value " + std::to_string(round);
+                *up = round * 7 + 2;
+                ++checked;
+                if (hash(sp) != hash(*sp))
+                    viol("shared_ptr<string>:hash-stale-after-pointee-change", std::to_string(round));
+                if (hash(up) != hash(*up))
+                    viol("unique_ptr<int>:hash-stale-after-pointee-change", std::to_string(round));
+            }
+            long reused = 0;
+            const void* last_s = nullptr;
+            const void* last_u = nullptr;
+            nitro::lang::unordered_set<std::shared_ptr<std::string>> keys;
+            std::vector<std::shared_ptr<std::string>> kept;
+            for (int round = 0; round < 200; ++round)
+            {
+                auto a = std::make_shared<std::string>("obj " + std::to_string(round));
+                auto u = std::make_unique<long>(round * 3L);
+                reused += (a.get() == last_s) + (u.get() == last_u);
+                last_s = a.get();
+                last_u = u.get();
+                ++checked;
+                if (hash(a) != hash(*a))
+                    viol("shared_ptr<string>:hash-stale-at-a-reused-address", std::to_string(round));
+                if (hash(u) != hash(*u))
+                    viol("unique_ptr<long>:hash-stale-at-a-reused-address", std::to_string(round));
+                if (round % 10 == 0)
+                {
+                    keys.insert(a);
+                    kept.push_back(a);
+                }
+            }
+            for (auto& k : kept)
+            {
+                (void)hash(up); // something else hashed in between
+                stats["lookups"]++;
+                if (keys.find(k) == keys.end())
+                    viol("unordered_set<shared_ptr<string>>:inserted-key-not-found", "key created at a recycled address");
+            }
+            stats["pointer-hash-after-change-or-address-reuse-checks"] = checked;
+            stats["pointer-addresses-reused"] = reused;
+        }
         std::vector<std::unique_ptr<int>> gu;
         for (int v : { 0, 1, 1, 5, -7 })
             gu.push_back(std::make_unique<int>(v));
